@@ -1,4 +1,6 @@
 import FrappyProofs.Lemmas.Comm
+import FrappyProofs.Lemmas.CommRun
+import FrappyProofs.Lemmas.CommStep
 import FrappyProofs.Lemmas.Logging
 import FrappyProofs.Lemmas.Rotate
 import FrappyProofs.Props.C16
